@@ -49,7 +49,7 @@ BOUNDED = {
         unit=P + "properties:_create_schemas / _process_models (fixpoints)", where="openapi_python_client/parser/properties/__init__.py",
         statement="for a valid document the generated classes and their properties do not depend on the order of "
                   "components.schemas (parents after children, forward references, single-reference wrappers)",
-        bound="two families of 4 schemas, all 24 orders each"),
+        bound="three families of 4 schemas (allOf parents, single-reference wrappers, references nested in unions / arrays), all 24 orders each"),
     "reference_strings": dict(
         unit=P + "properties.schemas:parse_reference_path", where="openapi_python_client/parser/properties/schemas.py",
         statement="a reference string is accepted only if it is empty or '#' + fragment; the urlparse fact assumed by the deductive "
@@ -81,12 +81,39 @@ BOUNDED = {
         bound="47 schemas: string/int enums (both styles) x listed and unlisted defaults, consts, unions",
         known={"C13-K7-union-default-coerced-by-first-member": lambda case, why: case.get("kind") == "union" and "declared default" in why,
                "C13-K8-enum-default-with-quote-rejected": lambda case, why: case.get("kind") == "str-enum" and "rejected" in why and '"' in str(case.get("default"))}),
+    "response_media": dict(
+        unit=P + "responses:response_from_data", where="openapi_python_client/parser/responses.py",
+        statement="a response is decoded by its first decodable media type AND typed by the schema of that same media type (no "
+                  "schema: Any); a response none of whose media types can be decoded is dropped with a warning",
+        bound="1-3 distinct media types over 8 (json / +json / xml / text / octet-stream / pdf, with and without schema), all orders"),
+    "response_refs": dict(
+        unit="openapi_python_client.parser.openapi:Endpoint._add_responses (+ response_from_data on references)",
+        where="openapi_python_client/parser/openapi.py",
+        statement="each documented status is handled under its own code or named in a warning, also when several statuses refer "
+                  "to one response component",
+        bound="1-3 of 4 status keys referring to one (or two) response components, inline 200 first or last (29 cases)"),
+    "rejection_pool": dict(
+        unit="openapi_python_client.parser.openapi:GeneratorData.from_dict (rejection path incl. the rendering of pydantic's errors)",
+        where="openapi_python_client/parser/openapi.py",
+        statement="a structurally invalid document yields a GeneratorError (or is accepted after coercion); no exception escapes",
+        bound="34 invalid documents (errors located under mapping keys, list indices, the root; wrong versions; non-mappings)"),
+    "param_override": dict(
+        unit="openapi_python_client.parser.openapi:Endpoint.add_parameters (path-item parameters)",
+        where="openapi_python_client/parser/openapi.py",
+        statement="a path-item parameter the operation overrides (same name and location) is ignored whatever it looks like: the "
+                  "operation is generated with its own parameter; a bad one that is not overridden drops the operation with a diagnostic",
+        bound="3 locations x 3 kinds of bad path-item parameter x overridden or not"),
+    "path_order": dict(
+        unit="generate(): operations that share a body model / an inline enum class / a response component",
+        where="openapi_python_client/parser/bodies.py",
+        statement="reordering the entries of `paths` changes no generated file (documents that generate without diagnostics)",
+        bound="3 families of 3 path items, all 6 orders each"),
     "equivalent_docs": dict(
         unit="generate() on pairs of documents that say the same thing in different notation", where="openapi_python_client/",
         statement="3.0 nullable vs 3.1 type list / null member, single-member allOf/oneOf/anyOf wrapper vs bare $ref, JSON vs "
                   "YAML, path-item parameter vs the same parameter on each operation: byte-identical trees; a default next "
                   "to a wrapped reference is kept",
-        bound="9 document pairs"),
+        bound="12 document pairs"),
 }
 
 
